@@ -21,9 +21,26 @@ for pid in sorted(registry.PROPS):
                                                    re.sub(r"\s+", " ", p.get("outside", "")).replace("|", "/")))
 table = "\n".join(rows)
 d = open(os.path.join(root, "DESIGN.md")).read()
+# complete list of stubs in force
+srows = ["| property | stub (real function -> replacement, justification) | harnesses using it |", "|---|---|---|"]
+for pid in sorted(registry.PROPS):
+    if pid == "SELFTEST":
+        continue
+    seen = {}
+    for h in registry.PROPS[pid]["harnesses"]:
+        if not h["name"].startswith(pid.lower()):
+            continue
+        for st in h.get("stubs", []):
+            seen.setdefault(st, []).append(h["name"])
+    for st, hs in seen.items():
+        srows.append("| %s | %s | %d: %s%s |" % (pid, re.sub(r"\s+", " ", st).replace("|", "/"), len(hs), ", ".join(hs[:3]), " ..." if len(hs) > 3 else ""))
+stable = "\n".join(srows)
 a, b = "<!-- AS-BUILT:BEGIN -->", "<!-- AS-BUILT:END -->"
 if a in d:
     d = d[:d.index(a) + len(a)] + "\n" + table + "\n" + d[d.index(b):]
+    sa, sb = "<!-- STUBS:BEGIN -->", "<!-- STUBS:END -->"
+    if sa in d:
+        d = d[:d.index(sa) + len(sa)] + "\n" + stable + "\n" + d[d.index(sb):]
     open(os.path.join(root, "DESIGN.md"), "w").write(d)
 else:
     print(table)
